@@ -385,6 +385,8 @@ def run_op(w: World, op: dict):
             r = e.int
             op["_raw"] = r
             return tok, str(r)
+        if t == "A":
+            return run_typed(op, ConfigurationEntry)
         if t == "x":
             tok = ":".join(["x", hexs(op["value"]), kvs(op["vars"]), kvs(op["callvars"]), o(op.get("default"))])
             e = ConfigurationEntry("k", op["value"], vars_dict=dict(op["vars"]))
@@ -395,6 +397,80 @@ def run_op(w: World, op: dict):
         op["_exc"] = ex
         return tok, "err:" + err_name(ex)
     raise AssertionError(f"unknown op {t}")
+
+
+EPOCH2000 = None
+
+
+def us_since_2000(d):
+    import datetime as _dt
+
+    if not isinstance(d, _dt.datetime):
+        d = _dt.datetime(d.year, d.month, d.day)
+    delta = d - _dt.datetime(2000, 1, 1)
+    return (delta.days * 86400 + delta.seconds) * 10**6 + delta.microseconds
+
+
+def show_float(x):
+    import math
+
+    if math.isnan(x):
+        return "nan"
+    if math.isinf(x):
+        return "inf" if x > 0 else "-inf"
+    return "f:" + (repr(x) if x != 0 else "0.0")
+
+
+def run_typed(op, ConfigurationEntry):
+    """typed accessors with arguments (op A): as_list / as_tuple / as_dict with patterns, float, date, datetime, path,
+    as_enum on a fresh entry"""
+    kind, v = op["kind"], op["value"]
+    e = ConfigurationEntry("k", v)
+    try:
+        if kind in ("list", "tuple"):
+            tok = ":".join(["A", kind, hexs(op["pattern"]), str(op["maxsplit"]), hexs(v)])
+            kw = {} if op.get("defaults") else {"split_re": op["pattern"], "maxsplit": op["maxsplit"]}
+            r = (e.as_list if kind == "list" else e.as_tuple)(**kw)
+            op["_raw"] = r
+            return tok, hexlist(list(r))
+        if kind == "dict":
+            tok = ":".join(["A", "dict", hexs(op["pattern"]), hexs(op["kvpattern"]), str(op["maxsplit"]), hexs(v)])
+            kw = {} if op.get("defaults") else {"item_split_re": op["pattern"], "key_value_split_re": op["kvpattern"], "maxsplit": op["maxsplit"]}
+            r = e.as_dict(**kw)
+            op["_raw"] = r
+            return tok, ",".join(f"{hexs(k)}={hexs(x)}" for k, x in r.items()) or "[]"
+        if kind == "float":
+            tok = f"A:float:{hexs(v)}"
+            r = e.float if op.get("prop", True) else e.as_float()
+            op["_raw"] = r
+            return tok, show_float(r)
+        if kind in ("date", "datetime"):
+            tok = f"A:{kind}:{hexs(v)}"
+            r = getattr(e, kind)
+            op["_raw"] = r
+            return tok, str(us_since_2000(r))
+        if kind == "path":
+            tok = f"A:path:{hexs(op['home'])}:{hexs(v)}"
+            old = os.environ.get("HOME")
+            os.environ["HOME"] = op["home"]
+            try:
+                r = e.path if op.get("prop", True) else e.as_path()
+            finally:
+                if old is None:
+                    os.environ.pop("HOME", None)
+                else:
+                    os.environ["HOME"] = old
+            op["_raw"] = str(r)
+            return tok, hexs(str(r))
+        if kind == "enum":
+            tok = f"A:enum:{hexs(op['enum'])}:{hexs(v)}"
+            r = e.as_enum(op["enum"])
+            op["_raw"] = r
+            return tok, hexs(r.name)
+    except Exception as ex:  # noqa: BLE001
+        op["_exc"] = ex
+        return tok, "err:" + ("unknownEnum" if type(ex).__name__ == "UnknownEnumError" else err_name(ex))
+    raise AssertionError(kind)
 
 
 def look(w: World, i: int, e, op: dict):
@@ -637,10 +713,137 @@ def oracle_query(w: World, op: dict, obs: str, rep, step):
         oracle_accessor(op, obs, rep, step)
     elif t == "x":
         oracle_replace(op, obs, rep, step)
+    elif t == "A":
+        oracle_typed(op, obs, rep, step)
     elif t == "G":
         oracle_look_get(w, op, obs, rep, step)
     elif t == "I":
         oracle_look_item(w, op, obs, rep, step)
+
+
+# the character classes used as split patterns, stated independently of `re`
+CLASSES = {
+    r"[\s,]": lambda c: c.isspace() or c == ",", r"[:]": lambda c: c == ":", r"[;]": lambda c: c == ";",
+    r"[,;]": lambda c: c in ",;", r"[|/]": lambda c: c in "|/", r"[=:]": lambda c: c in "=:", r"[a-c]": lambda c: "a" <= c <= "c",
+    r"[^_\w]": lambda c: not (c.isalnum() or c == "_"), r"[\s,;]": lambda c: c.isspace() or c in ",;",
+    r"[^\d]": lambda c: not c.isdigit(), r"[]x]": lambda c: c in "]x", r"[x-]": lambda c: c in "x-", r"[\-.]": lambda c: c in "-.",
+    r"[=]": lambda c: c == "=", r"[\S]": lambda c: not c.isspace(), r"[0-9_]": lambda c: c.isdigit() or c == "_", r"[^,]": lambda c: c != ",",
+}
+UNSUPPORTED_PATTERNS = [r",\s*", r"[,]+", r"\s", r"[\n]", "a|b"]
+
+FLOAT_DIGITS = r"\d+(?:_\d+)*"
+FLOAT_RE = re.compile(rf"[+-]?(?:(?:{FLOAT_DIGITS}\.?(?:{FLOAT_DIGITS})?|\.{FLOAT_DIGITS})(?:[eE][+-]?{FLOAT_DIGITS})?)\Z")
+FLOAT_NAME_RE = re.compile(r"([+-]?)(inf|infinity|nan)\Z", re.I)
+
+
+def class_split(is_sep, text, maxsplit):
+    """re.split for a single-character class, stated directly"""
+    out, cur, n = [], "", 0
+    for c in text:
+        if is_sep(c) and (maxsplit == 0 or n < maxsplit):
+            out.append(cur)
+            cur = ""
+            n += 1
+        else:
+            cur += c
+    return out + [cur]
+
+
+def oracle_typed(op, obs, rep, step):
+    import datetime as _dt
+    import math
+    from fractions import Fraction
+
+    kind, v = op["kind"], op["value"]
+    raw, exc = op.get("_raw"), op.get("_exc")
+    if kind in ("list", "tuple"):
+        f = CLASSES.get(op["pattern"])
+        if f is None:
+            return
+        want = [x for x in class_split(f, v, op["maxsplit"]) if x]
+        if exc is not None or list(raw) != want or not isinstance(raw, list if kind == "list" else tuple):
+            rep.violate(f"accessor:as_{kind}", f"entry.as_{kind}({op['pattern']!r}, maxsplit={op['maxsplit']}) of {v!r} gave "
+                        f"{raw if exc is None else obs!r}, splitting at the characters of the class gives {want!r}", step)
+        return
+    if kind == "dict":
+        fi, fk = CLASSES.get(op["pattern"]), CLASSES.get(op["kvpattern"])
+        if fi is None or fk is None:
+            return
+        items = [x for x in class_split(fi, v, op["maxsplit"]) if x]
+        pairs = [class_split(fk, it, 1) for it in items]
+        if any(len(p_) != 2 for p_ in pairs):
+            rep.count("as_dict:item-without-separator")
+            if obs != "err:value":
+                rep.violate("accessor:as_dict:item-without-separator", f"entry.as_dict of {v!r} gave {obs}; an item without key/value "
+                            "separator is documented to be a ValueError of as_dict (the `dict` property maps it to '')", step)
+            return
+        want = {}
+        for k, x in pairs:
+            want[k] = x
+        if exc is not None or raw != want or list(raw) != list(want):
+            rep.violate("accessor:as_dict", f"entry.as_dict({op['pattern']!r}, {op['kvpattern']!r}) of {v!r} gave {raw if exc is None else obs!r}, expected {want!r}", step)
+        return
+    if kind == "float":
+        t = v.strip()
+        m = FLOAT_NAME_RE.match(t)
+        if m:
+            want = float("nan") if m.group(2).lower() == "nan" else (-math.inf if m.group(1) == "-" else math.inf)
+        elif FLOAT_RE.match(t) and t.isascii():
+            try:
+                want = float(Fraction(t.replace("_", "")))
+            except OverflowError:
+                want = -math.inf if t.startswith("-") else math.inf
+        else:
+            want = None
+        if want is None:
+            if obs != "err:value":
+                rep.violate("accessor:float", f"entry.float of {v!r} gave {obs}, not a decimal literal: ValueError expected", step)
+        elif exc is not None or not (raw == want or (math.isnan(raw) and math.isnan(want))):
+            rep.violate("accessor:float", f"entry.float of {v!r} gave {raw if exc is None else obs!r}, the decimal value is {want!r}", step)
+        return
+    if kind in ("date", "datetime"):
+        # what date.isoformat() / str(datetime) write reads back; a text that is not digits-and-separators is refused
+        loose = r"\d{4}-\d{1,2}-[ \d]\d?" + (r"\s+\d{1,2}:\d{1,2}:\d{1,2}" if kind == "datetime" else "") + r"\Z"
+        iso = r"\d{4}-\d\d-\d\d" + (r" \d\d:\d\d:\d\d" if kind == "datetime" else "") + r"\Z"
+        if re.match(iso, v) and v.isascii():
+            try:
+                want = (_dt.datetime.fromisoformat(v) if kind == "datetime" else _dt.date.fromisoformat(v))
+            except ValueError:
+                want = None
+            if want is None:
+                if obs != "err:value":
+                    rep.violate(f"accessor:{kind}", f"entry.{kind} of {v!r} gave {obs}: not a calendar date, ValueError expected", step)
+            elif exc is not None or raw != want:
+                rep.violate(f"accessor:{kind}", f"entry.{kind} of {v!r} gave {raw if exc is None else obs!r}, expected {want!r}", step)
+        elif not re.match(loose, v) and obs != "err:value":
+            rep.violate(f"accessor:{kind}", f"entry.{kind} of {v!r} gave {obs}, the text has not the form of the format: ValueError expected", step)
+        return
+    if kind == "path":
+        if exc is not None:
+            rep.violate("accessor:path", f"entry.path of {v!r} raised {obs}", step)
+            return
+        comps = v.split("/")
+        clean = (v != "" and "~" not in v and not v.startswith("//") and all(c not in ("", ".") for c in (comps[1:] if v.startswith("/") else comps))
+                 and v != "/" and not v.endswith("/"))
+        if clean and raw != v:
+            rep.violate("accessor:path", f"entry.path of the plain path {v!r} gave {raw!r}", step)
+        if v.startswith("~/") and "~" not in v[1:] and "//" not in v and "/./" not in v and not v.endswith(("/", "/.")) and len(v) > 2:
+            want = op["home"].rstrip("/") + v[1:]
+            if re.match(r"/[^/]", op["home"]) and "//" not in op["home"] and raw != want:
+                rep.violate("accessor:path:home", f"entry.path of {v!r} with HOME={op['home']!r} gave {raw!r}, expected {want!r}", step)
+        return
+    if kind == "enum":
+        from midgard.collections import enums
+
+        cls = enums._ENUMS.get(op["enum"])
+        if cls is None:
+            want = "err:unknownEnum"
+        elif v in cls.__members__:
+            want = hexs(cls.__members__[v].name)
+        else:
+            want = "err:value"
+        if obs != want:
+            rep.violate("accessor:as_enum", f"entry.as_enum({op['enum']!r}) of {v!r} gave {obs}, the enumeration says {want}", step)
 
 
 def chain_situation(chain, section="given"):
@@ -949,6 +1152,8 @@ def run_history(ctx, drv, hist, tmp):
             count_text(ctx, op["_written"], op["width"])
         if op["op"] == "t" and ctx is not None:
             ctx.count("wf-text=" + obs)
+        if op["op"] == "A" and ctx is not None:
+            ctx.count(f"typed:{op['kind']}:" + (obs if obs.startswith("err:") else "value"))
         if op["op"] == "F" and ctx is not None:
             for name in ("DEFAULT", "__replace__", "__vars__"):
                 if f"[{name}]" in op["text"]:
@@ -990,6 +1195,16 @@ def run_history(ctx, drv, hist, tmp):
                     if hist[step]["op"] == "F":
                         break  # the model stopped inside the file: the states differ from here on
                     continue
+                if m == "unsupported-pattern":
+                    rep.count("model:unsupported-pattern")
+                    continue
+                if hist[step]["op"] == "A" and hist[step]["kind"] == "float" and "/" in m:
+                    from fractions import Fraction
+
+                    try:
+                        m = show_float(float(Fraction(m)))
+                    except OverflowError:
+                        m = "-inf" if m.startswith("-") else "inf"
                 if "unsupported-spec" in m:
                     # G / I: a format spec outside the modelled subset in .replaced / .replace(): the lookup part
                     # (key, value, source, owner) is still compared
@@ -1515,9 +1730,79 @@ def gen_odd_history(rng):
     return hist
 
 
+FLOAT_TEXTS = ["1.5", "-3", "+17", "1_000", "3.14", "1e3", "1E-3", ".5", "5.", "1_0.0_1e1_0", " 7 ", "inf", "-Infinity", "nan", "+NaN",
+               "0", "-0.0", "1e400", "-1e400", "1e-400", "123456789012345678901234567890", "0.1", "2.5e-3", "\t1.0\n", "iNf", "-nan",
+               "1__0", "_1", "1_", "1_.5", "1._5", "1e_5", "1e", "e5", ".", "0x10", "1.5f", "- 1", "in f", "1 2", "", "infinit", "1,5",
+               "1.5.2", "++1", "1e+", "._5", "5_.", "1_e5", "nan1", "+", "1e5.5", "0_0", "00.10", "1E+0_1"]
+DATE_TEXTS = ["2020-02-30", "2019-02-29", "2020-02-29", "2020-13-01", "2020-00-10", "0000-01-01", "0001-01-01", "9999-12-31", "20200-01-01",
+              "2020-01-05 ", " 2020-01-05", "2020-011-05", "2020-01-5x", "2020/01/05", "2020-01-00", "2020-1-5", "2020-01- 5", "2020-01-  5",
+              "2020-01- 0", "2020-12-31", "2020-04-31", "1900-02-29", "2000-02-29", "", "2020-01", "abcd-01-01", "2020-01-05T10:00:00"]
+TIME_TEXTS = ["10:20:30", "1:2:3", "10:20:60", "24:00:00", "23:59:59", "10:20:61", "10:60:00", "00:00:00", "10:20", "10:20:30.5", "7:07:7",
+              "10:20:3x", "10-20-30"]
+PATH_TEXTS = ["a/b", "/a/b", "//a/b", "///a", "a//b/./c/", "", ".", "~", "~/x/y", "~user/x", "a~b", "a/~/b", "/", "//", "./a", "a/..", "~//x",
+              "~/", "/data/{year}/file.txt", "~/midgard/{unknown}/x", "a/./b", "../a", "/.", "/a/", "x", "~/.", "a/b/", "////"]
+HOMES = ["/home/geo", "/home/geo/", "/", "", "//srv/h", "/root"]
+SPLIT_TEXTS = ["a;b|c/d=e:f", "k1:v1;k2=v2", "x-1.y_2", "one:en, two:to, three:tre", "a:1 b:2,c:3", "elevation:10, ionosphere, clock:poly:2",
+               "stas, trds", "word", "", ":x", "x:", "a::b", ";;a;;", "1,2;3 4", "abcabc", "k=v=w, q=r", "]x]y-z", " lead , trail "]
+
+
+def gen_typed(rng):
+    r = rng.random()
+    if r < 0.22:
+        pat = rng.choice(sorted(CLASSES) + sorted(CLASSES) + UNSUPPORTED_PATTERNS)
+        defaults = rng.random() < 0.15
+        return {"op": "A", "kind": rng.choice(["list", "tuple"]), "pattern": r"[\s,]" if defaults else pat,
+                "maxsplit": 0 if defaults else rng.choice([0, 0, 0, 1, 2, 5]), "defaults": defaults,
+                "value": rng.choice(SPLIT_TEXTS) if rng.random() < 0.5 else gen_value(rng, long_ok=False)}
+    if r < 0.42:
+        defaults = rng.random() < 0.3
+        return {"op": "A", "kind": "dict", "pattern": r"[\s,]" if defaults else rng.choice([r"[\s,]", r"[\s,]", "[;]", "[,;]", r"[\s,;]"]),
+                "kvpattern": "[:]" if defaults else rng.choice(["[:]", "[:]", "[=:]", "[=]"]),
+                "maxsplit": 0 if defaults else rng.choice([0, 0, 0, 1, 2]), "defaults": defaults,
+                "value": rng.choice(SPLIT_TEXTS) if rng.random() < 0.6 else gen_value(rng, long_ok=False)}
+    if r < 0.60:
+        if rng.random() < 0.6:
+            v = rng.choice(FLOAT_TEXTS)
+        else:
+            digs = lambda n: "".join(rng.choice("0123456789") for _ in range(n))
+            v = rng.choice(["", "-", "+"]) + digs(rng.randint(0, 12)) + rng.choice(["", ".", "." + digs(rng.randint(1, 12))])
+            if rng.random() < 0.4:
+                v += rng.choice("eE") + rng.choice(["", "-", "+"]) + str(rng.randint(0, 320))
+            if rng.random() < 0.2 and len(v) > 3:
+                i = rng.randrange(1, len(v))
+                v = v[:i] + "_" + v[i:]
+        return {"op": "A", "kind": "float", "value": v, "prop": rng.random() < 0.7}
+    if r < 0.80:
+        import datetime as _dt
+
+        kind = rng.choice(["date", "datetime"])
+        if rng.random() < 0.5:
+            d = _dt.date(1, 1, 1) + _dt.timedelta(days=rng.randrange(0, 3652058))
+            v = d.isoformat() if rng.random() < 0.7 else f"{d.year:04d}-{d.month}-{d.day}"
+        else:
+            v = rng.choice(DATE_TEXTS)
+        if kind == "datetime":
+            t = rng.choice(TIME_TEXTS) if rng.random() < 0.5 else f"{rng.randrange(24):02d}:{rng.randrange(60):02d}:{rng.randrange(60):02d}"
+            v = v + rng.choice([" ", " ", " ", "  ", "\t", "T", ""]) + t if rng.random() < 0.9 else v
+        return {"op": "A", "kind": kind, "value": v}
+    if r < 0.90:
+        return {"op": "A", "kind": "path", "home": rng.choice(HOMES), "value": rng.choice(PATH_TEXTS), "prop": rng.random() < 0.7}
+    from midgard.collections import enums
+
+    names = sorted(enums._ENUMS)
+    name = rng.choice(names + ["no_such_enum"])
+    cls = enums._ENUMS.get(name)
+    members = sorted(cls.__members__) if cls is not None else ["x"]
+    return {"op": "A", "kind": "enum", "enum": name,
+            "value": rng.choice(members) if rng.random() < 0.7 else rng.choice(["L1", "f1", "warn", "", "G", "nope", "l1", " L1"])}
+
+
 def gen_pure(rng, n):
     hist = []
     for _ in range(n):
+        if rng.random() < 0.45:
+            hist.append(gen_typed(rng))
+            continue
         if rng.random() < 0.6:
             hist.append({"op": "a", "kind": rng.choice(["list", "tuple", "dict", "bool", "int"]), "value": gen_value(rng)})
         else:
@@ -1633,7 +1918,7 @@ def run(ctx: Ctx):
             run_history(ctx, drv, hist, tmp)
             ctx.traces += 1
         # (c) accessors and replace
-        for _ in range(ctx.budget(120, 3000)):
+        for _ in range(ctx.budget(160, 3000)):
             hist = gen_pure(rng, 50)
             ctx.case({"digest": common.digest(hist), "pure": 50})
             ctx.count("pure")
